@@ -242,6 +242,10 @@ func IsDomainName(s string) (labels int, ok bool) {
 			if off > lenmsg {
 				return labels, false
 			}
+			// off does not count the root label, which is part of the 255 octet limit.
+			if off+1 > maxDomainNameWireOctets {
+				return labels, false
+			}
 
 			labels++
 			begin = i + 1
